@@ -20,6 +20,9 @@ ASSUME = [
     "reading of 'activity' for NotBefore: opening a keep-alive substream (establishment included); holding one forbids "
     "closing, and its end starts the Eventually clock but not a new NotBefore interval (the literal reading is "
     "evaluated separately and reported as a note, see `strict_reading`)",
+    "protocol-name dimension: inbound keep-alive substreams negotiated under the main or a fallback name are modelled in "
+    "KeepAliveMC and run on real request-response networks (A: /verif/x/2 with fallback /verif/x/1, B: old or new name); "
+    "the unit-level part does not see lifetime permits (only the transports' accept_substream consults the name map)",
     "TLC bounds: one connection, one keep-alive protocol and one non-keep-alive protocol, T = 2 ticks, horizon 9 ticks, "
     "up to 3 substream opens; timers and the loop exit are urgent",
 ]
@@ -68,7 +71,7 @@ def to_sched(stims):
     for s in stims:
         if s["a"] in ("open", "ropen") and s.get("q") == "k":
             a = s["a"] + ("_unsupported" if s["id"] in failed else "")
-            out.append({"at": s["at"], "a": a, "id": s["id"]})
+            out.append(dict({"at": s["at"], "a": a, "id": s["id"]}, **({"fb": s.get("fb", False)} if s["a"] == "ropen" else {})))
         elif s["a"] == "drop":
             out.append({"at": s["at"], "a": "drop", "id": s["id"]})
     return out
@@ -119,6 +122,32 @@ def networks(ctx, gen):
             add("double-idle", [], T, role="double", ping=r % 2 == 1, perturb=r % 3)
             add("double-hold", [{"at": 1, "a": "open", "id": 1}, {"at": 6, "a": "drop", "id": 1}], T, role="double", perturb=(r + 1) % 3)
             add("double-use", [{"at": 3, "a": "open", "id": 1}, {"at": 3.5, "a": "drop", "id": 1}], T, role="double", ping=True)
+    # protocol-name dimension: request-response networks. A speaks /verif/x/2 with fallback /verif/x/1; B speaks only the
+    # old name (the inbound substream at A is negotiated under the fallback name) or the new one. B sends a request,
+    # A holds it (the inbound substream exists) and answers later; all three transports.
+    def add_rr(name, sched, T, fb, k):
+        n = {"name": name, "seed": rnd.randrange(1 << 30), "T": T, "role": "single", "from": "AB"[k % 2], "perturb": k % 3, "sched": sched,
+             "tick_ms": T / 2.0, "kind": "rr", "fallback": fb, "transport": ("tcp", "ws", "quic")[k % 3]}
+        if k % 4 == 0:
+            n["ping_ms"], n["identify"] = max(20, T // 6), True
+        out.append(n)
+    rr_fams = [("rr-hold-3T", [{"at": 1, "a": "ropen", "id": 1}, {"at": 7, "a": "drop", "id": 1}]),
+               ("rr-hold-2T", [{"at": 0.5, "a": "ropen", "id": 1}, {"at": 4.5, "a": "drop", "id": 1}]),
+               ("rr-hold-forever", [{"at": 1, "a": "ropen", "id": 1}]),
+               ("rr-short", [{"at": 1, "a": "ropen", "id": 1}, {"at": 1.5, "a": "drop", "id": 1}]),
+               ("rr-two", [{"at": 0.5, "a": "ropen", "id": 1}, {"at": 1.5, "a": "ropen", "id": 2}, {"at": 3, "a": "drop", "id": 1}, {"at": 6, "a": "drop", "id": 2}])]
+    k = 0
+    for r in range(reps):
+        for name, sched in rr_fams:
+            for T in TS:
+                for fb in (True, False):
+                    k += 1
+                    add_rr("%s-%s" % (name, "fallback" if fb else "main"), sched, T, fb, k)
+    # TLC schedules that consist of remote opens (not failing) and drops only run as request-response networks too
+    rr_gen = [sc for sc, _ in gen if sc and all(x["a"] in ("ropen", "drop") for x in sc) and any(x["a"] == "ropen" for x in sc)]
+    for i, sc in enumerate(rnd.sample(rr_gen, min(len(rr_gen), 60 if ctx.quick() else 600))):
+        k += 1
+        add_rr("tlc-rr-%d" % i, sc, TS[i % 3], bool(next(x for x in sc if x["a"] == "ropen").get("fb", False)), k)
     pick = rnd.sample(gen, min(len(gen), 220 if ctx.quick() else 3000))
     for i, (sched, ping) in enumerate(pick):
         for T in (TS if not ctx.quick() and i % 5 == 0 else (TS[i % 3],)):
@@ -167,7 +196,7 @@ def unit_part(ctx, behs):
 def classify(seg, idx, reason):
     head = json.loads(seg[0])
     name = head.get("sc", "?")
-    fam = "tlc" if name.startswith("tlc-") else name.split("-at-")[0].split("+")[0]
+    fam = "tlc-rr" if name.startswith("tlc-rr") else ("tlc" if name.startswith("tlc-") else name.split("-at-")[0].split("+")[0])
     return "%s@%s" % (reason.replace(" ", "-"), fam)
 
 
@@ -226,7 +255,7 @@ def evidence(mc, gstats, summ, nets, lines, nseg, nev):
         head = json.loads(s[0])
         bytr[head.get("transport", "tcp")] = bytr.get(head.get("transport", "tcp"), 0) + 1
         name = head["sc"]
-        f = "tlc" if name.startswith("tlc-") else name
+        f = "tlc-rr" if name.startswith("tlc-rr") else ("tlc" if name.startswith("tlc-") else name)
         fam[f] = fam.get(f, 0) + 1
         T = head["T"]
         evs = [json.loads(x) for x in s[1:]]
@@ -298,7 +327,7 @@ def replay(ctx, path):
 def selftest(ctx):
     ok = True
     for name, mut, expect in [("ping-holds-permit", "ping-holds-permit", "MonOK"), ("permit-leak", "permit-leak", "MonOK"), ("no-rearm", "no-rearm", "MonOK"),
-                              ("activity-after-send", "activity-after-send", "ActiveTracked")]:
+                              ("activity-after-send", "activity-after-send", "ActiveTracked"), ("fallback-no-permit", "fallback-no-permit", "MonOK")]:
         r = tlc_mc(ctx, "KeepAliveMC.tla", write_cfg(ctx, "neg_%s.cfg" % name, dict(BASE, MaxSub=2, Mutant=mut), MC_LINES), workers=4, expect_violation=True, timeout=600)
         hit = ("%s is violated" % expect) in r["out"]
         log("selftest model %s -> %s" % (name, "violates %s as required" % expect if hit else "NOT DETECTED"))
